@@ -66,21 +66,26 @@ def main():
     ap.add_argument("pid"); ap.add_argument("n", type=int)
     ap.add_argument("--checks"); ap.add_argument("--tier", default="quick"); ap.add_argument("--make-args", default="")
     ap.add_argument("--skip-verify", action="store_true"); ap.add_argument("--seed", default="1")
+    ap.add_argument("--wt", help="worktree name under /tmp/wt (default: the property id)"); ap.add_argument("--as", dest="as_n", type=int, help="number under which the change is stored")
     a = ap.parse_args()
-    seeddir = "/tmp/wt/%s/_seed" % a.pid
-    out = os.path.join(VERIF, "seeded", "%s-%d" % (a.pid, a.n))
+    wt = a.wt or a.pid
+    seeddir = "/tmp/wt/%s/_seed" % wt
+    out = os.path.join(VERIF, "seeded", "%s-%d" % (a.pid, a.as_n or a.n))
     have = os.path.exists(os.path.join(out, "patch.diff"))
     if not have:
         os.makedirs(out, exist_ok=True)
         shutil.copy2(os.path.join(seeddir, "change%d.diff" % a.n), os.path.join(out, "patch.diff"))
-        for f in glob.glob(os.path.join(seeddir, "demo%d.*" % a.n)):
-            shutil.copy2(f, out)
+        for f in glob.glob(os.path.join(seeddir, "demo%d.*" % a.n)) + glob.glob(os.path.join(seeddir, "stub*")) + glob.glob(os.path.join(seeddir, "*.pm")) + glob.glob(os.path.join(seeddir, "check8.sh")):
+            if os.path.isdir(f):
+                shutil.copytree(f, os.path.join(out, os.path.basename(f)), dirs_exist_ok=True)
+            else:
+                shutil.copy2(f, out)
         if os.path.exists(os.path.join(seeddir, "README.md")):
             shutil.copy2(os.path.join(seeddir, "README.md"), os.path.join(out, "agent-README.md"))
     patch = os.path.join(out, "patch.diff")
     demos = [f for f in glob.glob(os.path.join(out, "demo%d.*" % a.n))]
     metap = os.path.join(out, "meta.json")
-    meta = json.load(open(metap)) if os.path.exists(metap) else dict(property=a.pid, change=a.n, checks={})
+    meta = json.load(open(metap)) if os.path.exists(metap) else dict(property=a.pid, change=a.as_n or a.n, round=2 if a.wt else 1, checks={})
     clean, changed = make_copy(), make_copy(patch)
     try:
         if not a.skip_verify:
@@ -90,7 +95,7 @@ def main():
             meta["suite_changed"] = dict(green=ok1, pass_lines=n1, tail=None if ok1 else t1)
             meta["demo"] = {}
             for demo in demos:
-                seedsrc = "/tmp/wt/%s/_seed" % a.pid
+                seedsrc = seeddir
                 r0 = run_demo(demo, clean, seedsrc); r1 = run_demo(demo, changed, seedsrc)
                 meta["demo"][os.path.basename(demo)] = dict(clean_exit=r0[0], changed_exit=r1[0], changed_output=r1[1][-400:] if r1[1] else None,
                                                             clean_output=None if r0[0] == 0 else r0[1])
